@@ -49,11 +49,15 @@ func GenerateSquaresTable(limit int64) *SquaresTable {
 func (t *SquaresTable) Split(delta *big.Int) ([]*big.Int, error) {
 	t_ := *t
 	v := delta.Int64()
-	if !delta.IsInt64() || v < 0 || v >= int64(len(t_)) || v%4 != 2 {
+	if !delta.IsInt64() || v < 0 || v%4 != 2 {
 		return nil, errors.New("value outside of table range")
 	}
 
+	// the table holds, at index i, the decomposition of 4i+2
 	v = (v - 2) / 4
+	if v >= int64(len(t_)) {
+		return nil, errors.New("value outside of table range")
+	}
 
 	return []*big.Int{big.NewInt(t_[v][0]), big.NewInt(t_[v][1]), big.NewInt(t_[v][2])}, nil
 }
